@@ -38,13 +38,38 @@ def _validate(chk, scen, results, label):
                 nval += 1
             else:
                 chk.corr_breaks.append(dict(model='afifo', case=case, verdict='MISMATCH ' + d,
-                                            events=res.get('events'), monitors=res.get('monitors')))
+                                            events=res.get('events'), monitors=res.get('monitors'), res=res))
         else:
             chk.corr_breaks.append(dict(model='afifo', case=case, verdict=v, events=res.get('events'),
-                                        monitors=res.get('monitors')))
+                                        monitors=res.get('monitors'), res=res))
     chk.cov['traces_validated_against_impl'] += nval
     chk.cov.setdefault('suites', {})[label] = dict(cases=len(results), validated=nval)
+    _recognise_legacy(chk, scen)
     return nval
+
+
+def _recognise_legacy(chk, scen):
+    """Legacy recogniser: traces the main model rejects are replayed through `drv afifostale`, the model
+    of the pinned code (Legacy/AFifoStale.lean); if it accepts them, the behaviour seen is defect F1."""
+    broken = [b for b in chk.corr_breaks if b.get('model') == 'afifo' and b.get('events') is not None
+              and 'legacy' not in b][:400]
+    if not broken:
+        return
+    lines = []
+    for k, b in enumerate(broken):
+        # re-derive the summary from the recorded events is not possible here; the break record keeps the result
+        lines += scen.model_lines(k, b['case'], b['res'], stale=True) if 'res' in b else []
+    if not lines:
+        return
+    out = core.run_driver('afifostale', lines)
+    okset = {l.split(' ', 2)[1] for l in out if l.startswith('ok ')}
+    n = 0
+    for k, b in enumerate(broken):
+        b['legacy'] = str(k) in okset
+        n += int(b['legacy'])
+    if n:
+        chk.notes.append(f'{n} of {len(broken)} traces rejected by the model are accepted by Legacy/AFifoStale: '
+                         'the code behaves like the pinned async feeder (defect F1: stale `t` enqueued on preprocessor failure)')
 
 
 def _cases(chk, scen):
